@@ -32,3 +32,81 @@ Print Assumptions C13_not_utf8.
 Example C13_example :
   text_lines [255; 254; 10; 56; 68; 10] = [None; Some [56; 68]].
 Proof. vm_compute. reflexivity. Qed.
+
+(** ---- at the byte level: junk lines inserted at line boundaries ---- *)
+From SQ Require Import Base Table TableProofs JunkBytes.
+
+
+(** inserting a junk line (any bytes without LF that form an ineffective chunk) plus its LF at ANY line boundary of ANY byte stream leaves the result of read_lines unchanged *)
+Theorem C13_junk_line_insertion : forall (o : opts) (now : Z) (t : table) (pre junk post : list N), pre = [] \/ (exists p : list N, pre = p ++ [10]) -> ~ In 10 junk -> effective o (chunk_line junk) = false -> read_lines o now t (pre ++ junk ++ 10 :: post) = read_lines o now t (pre ++ post).
+Proof. exact junk_line_insertion. Qed.
+Check C13_junk_line_insertion : forall (o : opts) (now : Z) (t : table) (pre junk post : list N), pre = [] \/ (exists p : list N, pre = p ++ [10]) -> ~ In 10 junk -> effective o (chunk_line junk) = false -> read_lines o now t (pre ++ junk ++ 10 :: post) = read_lines o now t (pre ++ post).
+Print Assumptions C13_junk_line_insertion.
+
+(** ... the same for table AND counters, from any state *)
+Theorem C13_junk_line_insertion_state : forall (o : opts) (now : Z) (s : state) (pre junk post : list N), pre = [] \/ (exists p : list N, pre = p ++ [10]) -> ~ In 10 junk -> effective o (chunk_line junk) = false -> run_lines o now s (text_lines (pre ++ junk ++ 10 :: post)) = run_lines o now s (text_lines (pre ++ post)).
+Proof. exact junk_line_insertion_state. Qed.
+Check C13_junk_line_insertion_state : forall (o : opts) (now : Z) (s : state) (pre junk post : list N), pre = [] \/ (exists p : list N, pre = p ++ [10]) -> ~ In 10 junk -> effective o (chunk_line junk) = false -> run_lines o now s (text_lines (pre ++ junk ++ 10 :: post)) = run_lines o now s (text_lines (pre ++ post)).
+Print Assumptions C13_junk_line_insertion_state.
+
+(** junk without a terminating LF at the end of the stream *)
+Theorem C13_junk_tail : forall (o : opts) (now : Z) (t : table) (pre junk : list N), pre = [] \/ (exists p : list N, pre = p ++ [10]) -> ~ In 10 junk -> effective o (chunk_line junk) = false -> read_lines o now t (pre ++ junk) = read_lines o now t pre.
+Proof. exact junk_tail. Qed.
+Check C13_junk_tail : forall (o : opts) (now : Z) (t : table) (pre junk : list N), pre = [] \/ (exists p : list N, pre = p ++ [10]) -> ~ In 10 junk -> effective o (chunk_line junk) = false -> read_lines o now t (pre ++ junk) = read_lines o now t pre.
+Print Assumptions C13_junk_tail.
+
+(** any number of junk lines woven between the lines of a stream: the result is that of the stream without them *)
+Theorem C13_junk_lines_weave : forall (o : opts) (now : Z) (t : table) (segs : list (list N * bool)), Forall (fun s : list N * bool => ~ In 10 (fst s) /\ (snd s = true -> effective o (chunk_line (fst s)) = false)) segs -> read_lines o now t (weave segs) = read_lines o now t (weave (filter (fun s : list N * bool => negb (snd s)) segs)).
+Proof. exact junk_lines_weave. Qed.
+Check C13_junk_lines_weave : forall (o : opts) (now : Z) (t : table) (segs : list (list N * bool)), Forall (fun s : list N * bool => ~ In 10 (fst s) /\ (snd s = true -> effective o (chunk_line (fst s)) = false)) segs -> read_lines o now t (weave segs) = read_lines o now t (weave (filter (fun s : list N * bool => negb (snd s)) segs)).
+Print Assumptions C13_junk_lines_weave.
+
+(** ... with an arbitrary unterminated last line *)
+Theorem C13_junk_lines_weave_last : forall (o : opts) (now : Z) (t : table) (segs : list (list N * bool)) (last : list N), Forall (fun s : list N * bool => ~ In 10 (fst s) /\ (snd s = true -> effective o (chunk_line (fst s)) = false)) segs -> read_lines o now t (weave segs ++ last) = read_lines o now t (weave (filter (fun s : list N * bool => negb (snd s)) segs) ++ last).
+Proof. exact junk_lines_weave_last. Qed.
+Check C13_junk_lines_weave_last : forall (o : opts) (now : Z) (t : table) (segs : list (list N * bool)) (last : list N), Forall (fun s : list N * bool => ~ In 10 (fst s) /\ (snd s = true -> effective o (chunk_line (fst s)) = false)) segs -> read_lines o now t (weave segs ++ last) = read_lines o now t (weave (filter (fun s : list N * bool => negb (snd s)) segs) ++ last).
+Print Assumptions C13_junk_lines_weave_last.
+
+(** byte-level sufficient conditions for junk: a chunk that is not valid UTF-8 (e.g. bytes 0x80-0xFF, a truncated multi-byte character) *)
+Theorem C13_not_utf8_bytes : forall (o : opts) (l : list N), valid_utf8 l = false -> effective o (chunk_line l) = false.
+Proof. exact not_utf8_ineffective. Qed.
+Check C13_not_utf8_bytes : forall (o : opts) (l : list N), valid_utf8 l = false -> effective o (chunk_line l) = false.
+Print Assumptions C13_not_utf8_bytes.
+
+(** any chunk whose number of hex-digit bytes is not 14, 26, 28 or 40 -- whatever else it contains (NUL, CR, multi-byte characters, any length) *)
+Theorem C13_wrong_hex_count : forall (o : opts) (l : list N), let n := Datatypes.length (filter hex_byte l) in n <> 14%nat /\ n <> 28%nat /\ n <> 26%nat /\ n <> 40%nat -> effective o (chunk_line l) = false.
+Proof. exact hex_count_ineffective. Qed.
+Check C13_wrong_hex_count : forall (o : opts) (l : list N), let n := Datatypes.length (filter hex_byte l) in n <> 14%nat /\ n <> 28%nat /\ n <> 26%nat /\ n <> 40%nat -> effective o (chunk_line l) = false.
+Print Assumptions C13_wrong_hex_count.
+
+(** the empty line *)
+Theorem C13_empty_line : forall o : opts, effective o (chunk_line []) = false.
+Proof. exact empty_line_ineffective. Qed.
+Check C13_empty_line : forall o : opts, effective o (chunk_line []) = false.
+Print Assumptions C13_empty_line.
+
+(** a lone CR *)
+Theorem C13_lone_cr : forall o : opts, effective o (chunk_line [13]) = false.
+Proof. exact cr_line_ineffective. Qed.
+Check C13_lone_cr : forall o : opts, effective o (chunk_line [13]) = false.
+Print Assumptions C13_lone_cr.
+
+(** a line without any hex digit *)
+Theorem C13_no_hex : forall (o : opts) (l : list N), (forall b : N, In b l -> hex_byte b = false) -> effective o (chunk_line l) = false.
+Proof. exact no_hex_ineffective. Qed.
+Check C13_no_hex : forall (o : opts) (l : list N), (forall b : N, In b l -> hex_byte b = false) -> effective o (chunk_line l) = false.
+Print Assumptions C13_no_hex.
+
+(** an over-long line: more than 40 hex digits (e.g. > 64 KiB of them) *)
+Theorem C13_over_long : forall (o : opts) (l : list N), (40 < Datatypes.length (filter hex_byte l))%nat -> effective o (chunk_line l) = false.
+Proof. exact too_many_hex_ineffective. Qed.
+Check C13_over_long : forall (o : opts) (l : list N), (40 < Datatypes.length (filter hex_byte l))%nat -> effective o (chunk_line l) = false.
+Print Assumptions C13_over_long.
+
+(** a truncated frame: fewer than 14 bytes *)
+Theorem C13_truncated : forall (o : opts) (l : list N), (Datatypes.length l < 14)%nat -> effective o (chunk_line l) = false.
+Proof. exact short_line_ineffective. Qed.
+Check C13_truncated : forall (o : opts) (l : list N), (Datatypes.length l < 14)%nat -> effective o (chunk_line l) = false.
+Print Assumptions C13_truncated.
+
+
